@@ -10,6 +10,7 @@ import (
 	"io/fs"
 	"os"
 	"path/filepath"
+	"strings"
 
 	"github.com/dave/jennifer/jen"
 )
@@ -194,14 +195,30 @@ func runOutputCase(tw *TraceWriter, id int, p OutParams, variant int, scratch st
 	if p.Entry == "File.Save" {
 		expected, _ = os.ReadFile(filepath.Join(dir, "twin.go"))
 	}
+	// independent oracle: is the raw rendering formattable, and what is the formatted output?  (go/format on a NoFormat
+	// render; for fragments the NoFormat render of a File that holds only the fragment, minus the package clause)
 	fmtok := true
 	if isFile {
 		rawTwin := build(true)
 		var rb bytes.Buffer
 		rawTwin.file.Render(&rb)
-		_, fmtok = Gofmt(rb.Bytes())
+		fm, ok := Gofmt(rb.Bytes())
+		fmtok = ok
+		if ok && !p.NoFormat && p.Entry == "File.Render" {
+			expected = fm
+		}
 	} else {
-		fmtok = twinStatus == "nil"
+		raw := rawOf(NewBuilder().Stmt(outputFragment(p.Valid, variant)))
+		const hdr = "nil:package main\n\n\n"
+		if strings.HasPrefix(raw, hdr) {
+			fm, ok := Gofmt([]byte(raw[len(hdr):]))
+			fmtok = ok
+			if ok {
+				expected = fm
+			}
+		} else {
+			fmtok = twinStatus == "nil"
+		}
 	}
 	// the call under test
 	target := ""
